@@ -108,7 +108,7 @@ func (c *StrC) words(o *[]string) {
 		*o = append(*o, "-")
 		return
 	}
-	*o = append(*o, "s", b01(c.Empty), hx(c.Equals), hx(c.Contains), hx(c.HasPrefix), hx(c.HasSuffix))
+	*o = append(*o, "s", b01(c.Empty), hx(c.Equals), hx(c.Contains), hx(c.HasPrefix), hx(c.HasSuffix), b01(c.CaseInsensitive))
 	c.ByteLen.words(o)
 }
 
@@ -268,7 +268,7 @@ func (p *parser) strC() *StrC {
 		return nil
 	case "s":
 		c := &StrC{}
-		c.Empty, c.Equals, c.Contains, c.HasPrefix, c.HasSuffix = p.flag(), p.str(), p.str(), p.str(), p.str()
+		c.Empty, c.Equals, c.Contains, c.HasPrefix, c.HasSuffix, c.CaseInsensitive = p.flag(), p.str(), p.str(), p.str(), p.str(), p.flag()
 		c.ByteLen = p.intC()
 		return c
 	}
@@ -445,7 +445,7 @@ func (c *StrC) toGo() *search.StringConstraint {
 		return nil
 	}
 	return &search.StringConstraint{Empty: c.Empty, Equals: c.Equals, Contains: c.Contains,
-		HasPrefix: c.HasPrefix, HasSuffix: c.HasSuffix, ByteLength: c.ByteLen.toGo()}
+		HasPrefix: c.HasPrefix, HasSuffix: c.HasSuffix, ByteLength: c.ByteLen.toGo(), CaseInsensitive: c.CaseInsensitive}
 }
 
 func t3339(sec int64) types.Time3339 {
